@@ -89,3 +89,11 @@ Theorem C11_http_two_uploads_newer_wins : forall k cfg allow h c vn vo csn cso E
     hresponses k cfg allow (h ++ [(as_req c vn csn, E4); (as_req c vo cso, E5); (gs_req c, E6)])
       = hresponses k cfg allow h ++ [r3; r4; mkResp 200 (Some vn) None None (Some RTSnapshot) (body_of csn) true].
 Proof. exact http_two_uploads_newer_wins. Qed.
+
+(* a second upload for the version that already holds the snapshot (another replica answering the same request,
+   other bytes) is acknowledged and changes nothing: GetSnapshot keeps returning the bytes of the upload that
+   created the snapshot — after any history, on every backend, wherever the version sits in the chain *)
+Theorem C11_reupload_keeps_snapshot : forall k cfg h c v d d2 E, oracle_ok h ->
+  responses k cfg (h ++ [(OGetSnapshot c, noenv)]) = responses k cfg h ++ [RSnap v d] ->
+  responses k cfg (h ++ [(OAddSnapshot c v d2, E); (OGetSnapshot c, noenv)]) = responses k cfg h ++ [RSnapAck; RSnap v d].
+Proof. exact reupload_keeps_snapshot. Qed.
